@@ -124,6 +124,8 @@ def o_sign(case):
     if mech == "wif" and not S.COINS[B.coin]["wif"]:
         mech = "lookup"
     req_ht = case["hash_type"]
+    if B.forkid and req_ht is not None and case.get("forms", 0) & 1:
+        req_ht |= 0x40           # on a fork-id coin the caller may well ask for the type with the fork-id bit already set
     eff_ht = S.effective_hash_type(B.coin, req_ht)
     std = S.standard_flags(B.coin)
     tx = B.pycoin_tx()
